@@ -81,3 +81,86 @@ def get_errors_contract():
                                                             "every schema/parameter error and every project error (nothing "
                                                             "filtered)", props=["C07"])
     return FnContract("openapi_python_client:Project._get_errors", [Case("generic", make, [cl], raises=(), props=["C07"])])
+
+
+def macro_presence_obligations(rep, prop="C06"):
+    """every macro that a template calls on an imported property template WITHOUT first testing that it exists is defined
+    by every property template (otherwise jinja2 raises UndefinedError out of generate() for that kind)"""
+    import os
+    from jinja2 import Environment, nodes
+    from pyvc import core
+    root = os.path.join(core.REPO, "openapi_python_client", "templates")
+    env = Environment(trim_blocks=True, lstrip_blocks=True, extensions=["jinja2.ext.loopcontrols"])
+    prop_dir = os.path.join(root, "property_templates")
+    defined = {}
+    for f in sorted(os.listdir(prop_dir)):
+        if f.endswith("_property.py.jinja"):
+            tree = env.parse(open(os.path.join(prop_dir, f), encoding="utf-8").read())
+            defined[f] = {m.name for m in tree.find_all(nodes.Macro)}
+    unguarded = {}          # macro name -> [(template, line)]
+
+    def alias_attr(t, aliases):
+        return t.attr if isinstance(t, nodes.Getattr) and isinstance(t.node, nodes.Name) and t.node.name in aliases else None
+
+    def walk_list(stmts, guards, fname, aliases):
+        g = set(guards)
+        for st in stmts:
+            if isinstance(st, nodes.If):
+                pos, neg = set(), set()
+                t = st.test
+                if isinstance(t, nodes.Not) and alias_attr(t.node, aliases):
+                    neg.add(alias_attr(t.node, aliases))
+                else:
+                    for x in ([t] if isinstance(t, nodes.Getattr) else list(t.find_all(nodes.Getattr))):
+                        if alias_attr(x, aliases) and not isinstance(t, (nodes.Or,)):
+                            pos.add(alias_attr(x, aliases))
+                walk_expr(st.test, g, fname, aliases)
+                walk_list(st.body, g | pos, fname, aliases)
+                for e in st.elif_:
+                    walk_list([e], g, fname, aliases)
+                walk_list(st.else_, g | neg, fname, aliases)
+                # `{% if not t.X %}...{% continue %}{% endif %}`: X exists for the rest of this iteration
+                if neg and any(isinstance(n, nodes.Continue) for n in st.body):
+                    g |= neg
+            elif isinstance(st, (nodes.For, nodes.Macro, nodes.CallBlock, nodes.FilterBlock, nodes.With)):
+                for f in ("iter", "call"):
+                    if getattr(st, f, None) is not None:
+                        walk_expr(getattr(st, f), g, fname, aliases)
+                walk_list(st.body, g, fname, aliases)
+                if isinstance(st, nodes.For):
+                    walk_list(st.else_, g, fname, aliases)
+            else:
+                walk_expr(st, g, fname, aliases)
+
+    def walk_expr(node, guards, fname, aliases):
+        for c in [node] + list(node.find_all(nodes.Call)):
+            if isinstance(c, nodes.Call) and alias_attr(c.node, aliases) and alias_attr(c.node, aliases) not in guards:
+                unguarded.setdefault(alias_attr(c.node, aliases), []).append((fname, c.lineno))
+
+    def walk(node, guards, fname, aliases):
+        walk_list(node.body, guards, fname, aliases)
+
+    for dp, _, fs in os.walk(root):
+        for f in sorted(fs):
+            if not f.endswith(".jinja"):
+                continue
+            p = os.path.join(dp, f)
+            tree = env.parse(open(p, encoding="utf-8").read())
+            aliases = set()
+            for imp in tree.find_all(nodes.Import):
+                src = imp.template
+                txt = src.left.value if isinstance(src, nodes.Add) and isinstance(src.left, nodes.Const) else (src.value if isinstance(src, nodes.Const) else "")
+                if "property_templates/" in str(txt) and isinstance(src, nodes.Add):
+                    aliases.add(imp.target)
+            if aliases:
+                walk(tree, set(), os.path.relpath(p, core.REPO), aliases)
+    for macro, sites in sorted(unguarded.items()):
+        missing = sorted(f for f, ms in defined.items() if macro not in ms)
+        ob = Obligation(id=f"{prop}.C.macro-presence.{macro}", props=[prop], unit=f"templates calling <property template>.{macro} unguarded",
+                        where=f"{sites[0][0]}:{sites[0][1]}", backend="syntactic (jinja AST)",
+                        formula=f"macro {macro} is called without an existence test at {sites[:3]}: every property template defines it")
+        if missing:
+            ob.status, ob.detail = REFUTED, f"not defined by {missing}: rendering a property of that kind raises jinja2 UndefinedError"
+        else:
+            ob.status, ob.detail = PROVED, f"defined by all {len(defined)} property templates"
+        rep.add(ob)
